@@ -1256,4 +1256,42 @@ func genPlacements(r *hx.Run, rng *gen.Rng, do func(string) string) {
 	do("kdraw 1 2 3")
 	do("krender")
 	r.Count("kitty-image-squeezed-to-nothing")
+	// round 4: refused encodes BETWEEN successful ones — an image shown, squeezed to nothing / given a negative box (the
+	// encoder refuses, `uploaded` and the buffer stay as they are, the placement changes size and is placed again with the
+	// data the terminal already has), then resized to a real size again (new data must go out)
+	nv := 12
+	if r.Thorough {
+		nv = 120
+	}
+	for c := 0; c < nv; c++ {
+		do(fmt.Sprintf("#case kitty:refused:%d", c))
+		do("knew 40 20 320 320") // cells of 8x16 px
+		flatW := rng.Range(17, 40)
+		kind := gen.Pick(rng, []string{"kimg", "kimgo"})
+		do(fmt.Sprintf("%s 1 %d 1", kind, flatW)) // a flat image: squeezed into fewer columns its height becomes 0
+		col, row := rng.Range(0, 20), rng.Range(0, 12)
+		step := func(box string, refused bool) {
+			do("kclear")
+			do("kresize 1 " + box)
+			if refused {
+				r.Count("kitty-refused-encode-between-frames")
+			}
+			if rng.Chance(1, 4) {
+				col, row = rng.Range(0, 20), rng.Range(0, 12)
+			}
+			do(fmt.Sprintf("kdraw 1 %d %d", col, row))
+			if rng.Chance(1, 6) {
+				do("krefresh")
+			} else {
+				do("krender")
+			}
+		}
+		step(fmt.Sprintf("%d 1", ceilDiv(flatW, 8)), false) // fits: shown as it is
+		step("1 1", true)                                    // squeezed to zero height
+		if rng.Bool() {
+			step(fmt.Sprintf("-%d 2", rng.Range(1, 3)), true) // negative box
+		}
+		step(fmt.Sprintf("%d 1", ceilDiv(flatW, 8)), false) // a real size again
+		step(fmt.Sprintf("%d 1", ceilDiv(flatW, 8)+1), false)
+	}
 }
